@@ -20,8 +20,13 @@ def check(pid, tier):
     out_lines, violations, machinery = [], [], []
     run_fn(pid, ev, violations, machinery, "MaskOpsEmit", "MaskOps_Trace", RUNNER, clause_property, "mask-case",
            nontrivial=lambda t: any(t["case"]["mask"]) and not all(t["case"]["mask"]))
+    # "preparing data under metadata with a fixed mask applies exactly that mask": the fixed-mask
+    # cases of Payload.tla (every payload form, also flat, on both grid layouts, static links)
+    run_fn(pid, ev, violations, machinery, "PayloadEmit", "Payload_Trace", ("payload_run", "run_case"),
+           lambda verdict, case: "C18" if verdict.split("@")[0] in ("payload-mask", "payload-accepted") else "C08",
+           "payload-case", emit_env={"WHAT": "fixedmask"}, nontrivial=lambda t: t["obs"]["res"] == "ok")
     # acceptance table: consumer FLEX / NONE / fixed x producer mask x grid layout
-    masks, grids = ["flex", "nomask", "M", "N", "E", "E0"], ["g", "g2"]
+    masks, grids = ["flex", "nomask", "M", "N", "E", "E0"], ["g", "g2", "g3", "g4"]
     cases = []
     for pm, cm, pg, cg in itertools.product(masks, masks, grids, grids):
         base = {"time": "t", "units": "m", "foo": "absent"}
@@ -35,7 +40,7 @@ def check(pid, tier):
         violations.append((pid, f"mask acceptance: {verdict} case={jdump(traces[k]['case'])[:300]}", path))
     ev.cov["rule"] = ("every case of MaskOps.tla (shapes up to 3 dimensions / 8 elements, both orders, all masks for "
                       "<= 6 elements, masked arrays / mask argument / nomask, plain and quantified) on the public "
-                      "helpers, plus all 144 producer x consumer mask x layout combinations of the acceptance table; "
+                      "helpers, plus all 576 producer x consumer mask x layout (four layouts of one geometry) combinations of the acceptance table; "
                       "non-trivial = partial mask")
     return finish(pid, ev, out_lines, violations, machinery)
 
@@ -44,6 +49,8 @@ def replay(pid, path):
     import json
     with open(path) as f:
         kind = json.load(f).get("kind")
+    if kind == "payload-case":
+        return replay_fn(pid, path, "Payload_Trace", ("payload_run", "run_case"), clause_property)
     if kind == "meta-case":
         return replay_fn(pid, path, "Meta_Trace", ("meta_run", "run_case"), clause_property)
     return replay_fn(pid, path, "MaskOps_Trace", RUNNER, clause_property)
